@@ -20,7 +20,10 @@ func main() {
 	if t3.MaybeReplay(rep, args, map[string]bool{"C09": true}) {
 		rep.Finish()
 	}
-	dbreplay.Post = func() { t3.Stage(rep, args, map[string]bool{"C09": true}) }
+	dbreplay.Post = func() {
+		replicaRetention(rep, args.Seed)
+		t3.Stage(rep, args, map[string]bool{"C09": true})
+	}
 	// replicated applies, snapshots, restarts and drops: the cluster scripts with this property's monitors
 	repl.Main(rep, args, map[string]bool{"C09": true}, []repl.Stage{
 		{Name: "repl-3n-2tx-2faults", Cfg: "MC_Repl_quick.cfg", Timeout: 10 * time.Minute, MaxKeep: core.Pick(args, 40, 300)},
